@@ -74,6 +74,39 @@ CHECKS = {
             "DESIGN.md §3 C16",
             "Completeness only inside the box [-6,6]^k ([-4,4]^3 for triples in quick); algebraic relations by numeric prefilter + minimal polynomial.",
             "exhaustive enumeration of base lists x exponent box against the definition"),
+    "C09": ("model_checking",
+            "Guarded programs are explored as Markov chains: the conditional expectation given termination is computed exactly at "
+            "every n <= N and compared with Polar's moment-given-termination sequence (either alignment T <= n-1 / T <= n, uniformly); "
+            "the reported limit is compared with the exact exit expectation from absorbing-chain analysis of the explored state graph "
+            "(finite-state monomials) or with a depth-40 estimate with error bar (accumulators); a divergence family must give oo.",
+            "DESIGN.md §3 C09, §9",
+            "Limits for accumulators use a heuristic error bar (geometric convergence assumed); finite-n values and finite-state limits are exact.",
+            "explicit-state exploration + absorbing-chain (probabilistic reachability) analysis vs reported conditional moments and limits"),
+    "C10": ("model_checking",
+            "Programs with symbolic parameters are explored over Q[p,q]: E_n(M) is an exact polynomial in the parameters, differentiated "
+            "exactly; compared at every n <= N as polynomials in the parameters with both of Polar's methods.",
+            "DESIGN.md §3 C10",
+            "Trusted: mc.poly differentiation; sympy diff of Polar's own closed form reproduces SensitivityAction._diff_closed_form.",
+            "explicit-state exploration with polynomial weights vs sensitivity recurrences and closed-form derivative"),
+    "C11": ("model_checking",
+            "The exact law of M at every n <= N comes from the explored chain; central moments by definition, cumulants by the partition "
+            "formula, tails by summation; Polar's values come from GoalParser + GoalsAction handlers (tail bounds from printed --at_n lines). "
+            "Expansions: all cumulant vectors of a grid (Gram-Charlier integrals; Cornish-Fisher vs textbook on 9 points of a degree<=4 polynomial).",
+            "DESIGN.md §3 C11",
+            "Central moments checked for k >= 2; tail bounds only when the printed assumption holds; quadrature at 30 digits.",
+            "explicit-state exploration (exact law) vs reported statistics; exhaustive grid for the expansions"),
+    "C17": ("model_checking",
+            "Every option combination (2^3 strategy flags, declared types with/without inference, numeric root options, eps) is run on every "
+            "program of the corpus and each succeeding configuration must equal the reference model at every n <= N.",
+            "DESIGN.md §3 C17",
+            "Agreement between configurations is decided through the model; numeric modes within a stated tolerance and flagged rounded.",
+            "exhaustive enumeration of configurations x explicit-state exploration of each program"),
+    "C18": ("model_checking",
+            "Programs constructively inside the documented class (membership decided on the oracle's AST and dependency graph) must be "
+            "normalised and solved for every monomial of degree <= 2 without any exception, and the result must equal the model.",
+            "DESIGN.md §3 C18, §9",
+            "CPU-limit overruns are recorded, not counted as refusals; class membership is conservative (path-sensitive finiteness excluded).",
+            "exhaustive enumeration of in-class programs; acceptance + explicit-state comparison"),
 }
 
 NOT_YET = {}
